@@ -202,6 +202,16 @@ func runC10(c *Ctx) {
 					case "strings.Replace":
 						n, isK := constInt(x.Call.Args[3])
 						okUse = x.Call.Args[0] == v && isK && n < 0
+					case "strings.Contains":
+						// "is there a placeholder (this placeholder) left at all?" — skipping a substitution that would change
+						// nothing decides nothing about the values
+						if x.Call.Args[0] == v {
+							if k, isK := constString(x.Call.Args[1]); isK && k == "{" {
+								okUse = true
+							} else if lit, name := concatLiteral(x.Call.Args[1]); lit == 2 && name != nil {
+								okUse = true
+							}
+						}
 					case "net/http.NewRequestWithContext":
 						okUse = x.Call.Args[2] == v
 					default:
